@@ -1,9 +1,10 @@
 (* C14, stream "conv" — the generated conversions against the compiled Go functions.
    input: m ; observable: MilliCPUToShares m, MilliCPUToQuota m.
    prop_case compares the implementation with the standard conversion written with literal
-   numbers (Proofs_Conv.std_shares / std_quota, proved equal to the generated functions). *)
+   numbers (Std.std_shares / std_quota; Proofs_Conv proves the generated functions equal them on
+   the unchanged tree). No proof file is imported: the runner builds even when that proof breaks. *)
 From Coq Require Import List ZArith Bool.
-From Verif Require Import Lib.Wire C14.Model C14.Proofs_Conv.
+From Verif Require Import Lib.Wire C14.Model C14.Std.
 Import ListNotations.
 Open Scope Z_scope.
 
